@@ -239,3 +239,11 @@ func derivesFrom(v ssa.Value, root func(ssa.Value) bool, depth int) bool {
 	}
 	return false
 }
+
+// canSkip: from block `from`, block `target` can be reached without executing block `via`.
+func canSkip(from, via, target *ssa.BasicBlock) bool {
+	if from == via {
+		return false
+	}
+	return reachableFrom([]*ssa.BasicBlock{from}, map[*ssa.BasicBlock]bool{via: true})[target]
+}
